@@ -467,6 +467,119 @@ def sec_sp(ck, G, T):
     ck.section("sp", graphs=len(cases), model_cases=nmodel)
 
 
+# ------------------------------------------------------------------ section: floyd with seed arguments
+def seed_arguments(rng, V):
+    """Seed arguments for a method that takes an ARRAY of seeds whose order matters in the result:
+    (class, seeds as a python list, the object handed to the method).  Classes: none, single, sorted-distinct,
+    unsorted-distinct, all-reversed (negative-stride view), repeated (unsorted, with repeats), strided-view
+    (every 2nd entry of a longer buffer), empty; containers: list, intp / int32 / int64 arrays, views."""
+    def container(seeds):
+        c = int(rng.integers(4))
+        if c == 0:
+            return list(seeds), "list"
+        dt = [np.intp, np.int32, np.int64][c - 1]
+        return np.array(seeds, dtype=dt), np.dtype(dt).name
+    out = [("none", list(range(V)), None, "None")]
+    s = int(rng.integers(V))
+    out.append(("single", [s]) + container([s]))
+    if V >= 2:
+        k = int(rng.integers(2, V + 1))
+        sub = [int(x) for x in rng.choice(V, size=k, replace=False)]
+        out.append(("sorted-distinct", sorted(sub)) + container(sorted(sub)))
+        k = int(rng.integers(2, V + 1))
+        sub = [int(x) for x in rng.choice(V, size=k, replace=False)]
+        if sub == sorted(sub):
+            sub = sub[::-1]
+        out.append(("unsorted-distinct", sub) + container(sub))
+        out.append(("all-reversed", list(range(V))[::-1], np.arange(V)[::-1], "negative-stride-view"))
+        k = int(rng.integers(3, V + 4))
+        rep = [int(x) for x in rng.integers(0, V, size=k)]
+        rep[int(rng.integers(1, k))] = rep[0]
+        out.append(("repeated", rep) + container(rep))
+        k = int(rng.integers(2, V + 1))
+        buf = rng.integers(0, V, size=2 * k)
+        buf[::2] = rng.permutation(V)[:k]
+        out.append(("strided-view", [int(x) for x in buf[::2]], buf[::2], "every-2nd-entry-view"))
+    out.append(("empty", [], np.zeros(0, np.intp), "intp"))
+    return out
+
+
+def sec_floyd(ck, G, T):
+    """floyd(seed): row i must be the distance map of seed[i] - for seed=None and for every explicit seed array,
+    in the caller's order (sorted or not, with or without repeats, any integer container / memory layout).
+    Oracle: Floyd-Warshall rows.  Coq: floyd_code (the loop as written) == implementation, and the proved-sound
+    floyd_rows_check on the implementation's matrix == brute-force verdict."""
+    WeightedGraph = G.WeightedGraph
+    rng = ck.rng("floyd")
+    cases = [c for i, c in enumerate(small_digraphs(ck, rng)) if c[0] >= 2 and i % ck.n(40, 6) == 0]
+    for i in range(ck.n(90, 900)):
+        V = int(rng.integers(2, 10))
+        cases.append((V, random_digraph(rng, V, i % 4 == 1), "floyd-digraph-random"))
+    for i in range(ck.n(40, 400)):
+        V = int(rng.integers(3, 10))
+        cases.append((V, random_symmetric(rng, V), "floyd-symmetric-random"))
+    cases += [(V, e, "floyd-" + b) for V, e, b in multigraphs(ck, rng)[:ck.n(30, 300)]]
+    cases += [(V, [], "floyd-edgeless") for V in (1, 2, 3, 5)]
+    for i in range(ck.n(6, 40)):
+        V = int(rng.integers(25, 60))
+        cases.append((V, random_digraph(rng, V), "floyd-digraph-large"))
+    cases.sort(key=lambda c: c[0] > 4)
+    ncall, per_class = 0, {}
+    for V, edges, bucket in cases:
+        ck.count(("floyd", V, tuple(edges)), nontrivial=len(edges) > 0, bucket=bucket)
+        ref = fw(V, edges)
+        g = mkgraph(WeightedGraph, V, edges) if edges else WeightedGraph(V)
+        order = akey(V, edges) if edges else []
+        T.newgraph(cE(edges))
+        for cls, seeds, arg, cont in seed_arguments(rng, V):
+            rp = {"V": V, "edges": edges, "seed_class": cls, "seed": None if arg is None else seeds, "seed_container": cont,
+                  "call": "WeightedGraph(V, edges, weights).floyd(%s)" % ("" if arg is None else "seed")}
+            keep = None if arg is None else (arg.copy() if hasattr(arg, "copy") else list(arg))
+            try:
+                F = g.floyd() if arg is None else g.floyd(arg)
+            except Exception as e:  # noqa
+                ck.fail("floyd/raises-seed-%s" % cls, "floyd(%s) raised %s: %s (V=%d, seeds %s as %s)" % (
+                    cls, type(e).__name__, e, V, seeds, cont), rp)
+                continue
+            ncall += 1
+            per_class[cls] = per_class.get(cls, 0) + 1
+            if arg is not None and not np.array_equal(np.asarray(keep), np.asarray(arg)):
+                ck.fail("purity/floyd-modifies-its-seed-array", "floyd changed the seed array %s -> %s" % (seeds, list(arg)), rp)
+            if cls == "empty":
+                rows = [] if F is None or np.size(F) == 0 else None
+                if rows is None:
+                    ck.fail("floyd/rows-for-an-empty-seed-array", "floyd(empty seed array) returned %r" % (F,), rp)
+                    continue
+                ok = True
+            else:
+                F2 = np.atleast_2d(np.asarray(F, float))
+                want = ref[seeds, :]
+                if F2.shape != want.shape:
+                    ck.fail("floyd/wrong-shape-seed-%s" % cls, "floyd with %d seeds (%s) on V=%d returned shape %s, expected %s" % (
+                        len(seeds), cls, V, F2.shape, want.shape), dict(rp, impl_shape=list(F2.shape)))
+                    continue
+                ok = bool(np.array_equal(F2, want))
+                rows = [dvec(r) for r in F2]
+                if not ok:
+                    bad = [i for i in range(len(seeds)) if not np.array_equal(F2[i], want[i])]
+                    perm = sorted(map(tuple, F2.tolist())) == sorted(map(tuple, want.tolist()))
+                    ck.fail("floyd/rows-not-the-distance-maps-of-their-seeds-%s" % cls,
+                            "floyd(seed=%s) on V=%d edges=%s: row %d is %s but the distances from seed %d are %s%s" % (
+                                "None" if arg is None else seeds, V, edges if len(edges) < 12 else "(%d edges)" % len(edges), bad[0],
+                                rows[bad[0]], seeds[bad[0]], dvec(want[bad[0]]),
+                                " (the rows are the right distance maps in another order)" if perm else ""),
+                            dict(rp, impl=rows, true=[dvec(r) for r in want], wrong_rows=bad, right_rows_in_wrong_order=perm))
+            if V <= 9:
+                sarg = "None" if arg is None else "(Some %s)" % cnats(seeds)
+                T.add("floyd", "zll_eqb (floyd_flat %s %s %s %s) %s" % (cnat(V), cE(edges), cnats(order), sarg, zll(rows)),
+                      dict(rp, impl=rows), show="floyd_flat %s %s %s %s" % (cnat(V), cE(edges), cnats(order), sarg))
+                if cls != "empty":
+                    T.add("floyd_check", "Bool.eqb (floyd_rows_check %s %s %s (map mkd %s)) %s" % (
+                        cnat(V), cE(edges), cnats(seeds), zll(rows), "true" if ok else "false"),
+                        dict(rp, impl=rows, bruteforce_ok=ok))
+    ck.section("floyd", graphs=len(cases), calls=ncall, calls_per_seed_class=per_class)
+
+
 # ------------------------------------------------------------------ sections: cc, voronoi, msf
 def sec_sym(ck, G, T):
     WeightedGraph = G.WeightedGraph
@@ -1815,6 +1928,7 @@ def run(ck):
     t0 = time.time()
     ck.section("timing", coq_build_s=round(tb - ta, 1), overlay_import_s=round(t0 - tb, 1))
     sec_sp(ck, G, T)
+    sec_floyd(ck, G, T)
     t1 = time.time()
     sec_sym(ck, G, T)
     t2 = time.time()
